@@ -14,6 +14,8 @@ Next == /\ l <= Len(Rec)
                 /\ IF ev.rc = ExitIntended(cfg, run) THEN TRUE ELSE Why("exit", ExitIntended(cfg, run), ev.rc)
                 \* a statistics file of another input is reported as not matching, the run's own file as matching (C15 round trip)
                 /\ IF cfg.mute \/ ev.mismatch_reported = run.mismatch THEN TRUE ELSE Why("mismatch_reported", run.mismatch, ev.mismatch_reported)
+             \* the muted and the unmuted run of one input, mode and option set: same error total, same exit status
+             [] ev.kind = "mutepair" -> IF ev.plain = ev.muted THEN TRUE ELSE Why("mute_changes_findings", ev.plain, ev.muted)
              \* invalid option combinations are refused (non-zero status) before any output is written
              [] ev.kind = "badoptions" ->
                 /\ IF ev.rc # 0 THEN TRUE ELSE Why("refused", "non-zero", ev.rc)
